@@ -41,9 +41,9 @@ var userFns = []struct {
 }
 
 func streamUserOp(o *Out, r *Rng, tier string) {
-	nOps, perOp := 24, 40
+	nOps, perOp := 40, 30
 	if tier == "thorough" {
-		nOps, perOp = 60, 200
+		nOps, perOp = 80, 200
 	}
 	o.meta.Rule = fmt.Sprintf("%d operators registered with AddOperation one after another (alias letters or symbols, written in lower/upper/mixed case; priority 1..7; left or right; semantics sub/pow/div/cat), after each: registry dump vs model, %d chains of 2..4 operators mixing it with earlier user operators and built-ins (+ - * / **), with and without blanks: postfix form vs the model's shunting yard on the model's table, value vs the tree the declared precedence and associativity determine. Distinct = distinct (chain, value) pairs.", nOps, perOp)
 	builtins := []userOp{
@@ -54,14 +54,16 @@ func streamUserOp(o *Out, r *Rng, tier string) {
 		{"**", 6, true, math.Pow},
 	}
 	var users []userOp
-	symbols := []string{"~", "<>", "=>", "!!", "~~", "<~", "|>", "%%"}
+	// symbols: new first bytes, built-in first bytes followed by another built-in first byte, and built-in one-byte operators
+	// followed by a byte that starts no operator at all ('?' is never registered on its own)
+	symbols := []string{"~", "<>", "=>", "!!", "<?", ">?", "|>", "%%", "*?", "+?", "&?", "-?", "^?", "/?", "|?"}
 	root := ajson.NullNode("")
 	emit := func(req, obs, key string) { o.Emit(req, obs, key) }
 	for i := 0; i < nOps; i++ {
 		// a fresh alias: letters "x<letters of i>" or one of the symbols
 		var lower string
-		if i%4 == 3 && i/4 < len(symbols) {
-			lower = symbols[i/4]
+		if i%2 == 1 && i/2 < len(symbols) {
+			lower = symbols[i/2]
 		} else {
 			lower = "x" + string(rune('a'+i%26)) + string(rune('a'+(i/26)%26))
 		}
